@@ -72,7 +72,13 @@ func (v *Vue) Funcs(funcMap FuncMap) *Vue {
 // RenderNodes evaluates and renders HTML nodes with the given data.
 // This is the core rendering function used by all public render methods.
 func (v *Vue) RenderNodes(w io.Writer, nodes []*html.Node, data any) error {
-	dataMap := toMapData(data)
+	// The root scope is a private copy of the caller's map (templates can set
+	// variables in it).
+	callerMap := toMapData(data)
+	dataMap := make(map[string]any, len(callerMap))
+	for k, val := range callerMap {
+		dataMap[k] = val
+	}
 
 	ctx := NewVueContext("", &VueContextOptions{
 		Stack:      NewStackWithData(dataMap, data),
@@ -136,8 +142,10 @@ func (v *Vue) Render(w io.Writer, filename string, data any) error {
 	// Merge front-matter data into the provided data (front-matter is authoritative)
 	dataMap := toMapData(data)
 	verifPoint(vpFMMerge, len(frontMatter), 0)
-	if len(frontMatter) > 0 {
-		// never write into the caller's map
+	{
+		// The root scope is always a private map: front-matter is merged into
+		// it, and a top-level <template :x="..."> or plain attribute sets
+		// variables in it - neither may end up in the caller's map.
 		merged := make(map[string]any, len(dataMap)+len(frontMatter))
 		for k, v := range dataMap {
 			merged[k] = v
@@ -245,8 +253,10 @@ func (v *Vue) RenderFragment(w io.Writer, filename string, data any) error {
 	// Merge front-matter data into the provided data (front-matter is authoritative)
 	dataMap := toMapData(data)
 	verifPoint(vpFMMerge, len(frontMatter), 0)
-	if len(frontMatter) > 0 {
-		// never write into the caller's map
+	{
+		// The root scope is always a private map: front-matter is merged into
+		// it, and a top-level <template :x="..."> or plain attribute sets
+		// variables in it - neither may end up in the caller's map.
 		merged := make(map[string]any, len(dataMap)+len(frontMatter))
 		for k, v := range dataMap {
 			merged[k] = v
